@@ -1,5 +1,6 @@
 import Driver.Proto
 import PdtVerif.Model.Controller
+import PdtVerif.Model.ControllerText
 import PdtVerif.Spec.TrainingRules
 /-! Driver for C15: runs the controller model (uninterrupted and with restarts) and the
 declarative rules on one configuration and metric sequence. -/
@@ -26,6 +27,37 @@ def rowJ (r : Row) : Json :=
         ("rlr_resume_cd", intJ r.rlrResume), ("rlr_patience_cd", intJ r.rlrCd),
         ("lr", optJ ratToJson r.lr), ("train_met", optRatJ r.train), ("val_met", optRatJ r.val)]
 
+/-- `{"name": str, "typ": "int"|"float"|"str", "fmt": {"k": "plain"|"dec"|"sci"|"s"|"r", "n": nat}}` -/
+def parseDecl (j : Json) : Except String EntryDecl := do
+  let name ← getStr j "name"
+  let typ ← match (← getStr j "typ") with
+    | "int" => pure ETyp.int
+    | "float" => pure ETyp.flt
+    | "str" => pure ETyp.str
+    | t => throw s!"bad entry type {t}"
+  let f ← field j "fmt"
+  let n ← getNat f "n"
+  let fmt ← match (← getStr f "k") with
+    | "plain" => pure EFmt.plain
+    | "dec" => pure (EFmt.dec n)
+    | "sci" => pure (EFmt.sci n)
+    | "s" => pure EFmt.s
+    | "r" => pure EFmt.r
+    | k => throw s!"bad entry format {k}"
+  pure { name := name.toList, typ := typ, fmt := fmt }
+
+def parseEVal (t : ETyp) (j : Json) : Except String EVal :=
+  match t with
+  | .int => EVal.int <$> jsonToInt j
+  | .flt => EVal.flt <$> jsonToRat j
+  | .str => (fun s => EVal.str s.toList) <$> jsonToStr j
+
+def evalJ (v : EVal) : Json :=
+  match v with
+  | .int n => Json.arr #[strJ "int", intJ n]
+  | .flt x => Json.arr #[strJ "float", ratToJson x]
+  | .str s => Json.arr #[strJ "str", strJ (String.ofList s)]
+
 structure Trace where
   cont : List Bool := []
   contTraining : List Bool := []
@@ -33,11 +65,22 @@ structure Trace where
   setLr : List (Option Rat) := []
   error : Option String := none
   final : Option State := none
+  /-- `continue_training()` on the fresh controller, before any update -/
+  cont0 : Bool := true
+  /-- the rows as they were written to the file (row of the update + the values handed in) -/
+  written : List RowE := []
+  /-- user entries as `get_info` returns them now, per recorded epoch -/
+  users : List (List EVal) := []
+  /-- every restart: re-reading the file text (`readHist ∘ fileText`) gave exactly the
+  record-level `restart` -/
+  textOk : Bool := true
 
-/-- step by step, restarting after the epochs in `rs`; records what the harness observes -/
-def trace (P : Params) (S0 : State) (ms : List (Rat × Rat)) (rs : List Nat) : Trace := Id.run do
+/-- step by step, restarting after the epochs in `rs`; records what the harness observes.
+`vals[e-1]` are the user-entry values handed to the update of epoch `e`. -/
+def trace (P : Params) (decls : List EntryDecl) (vals : List (List EVal)) (S0 : State)
+    (ms : List (Rat × Rat)) (rs : List Nat) : Trace := Id.run do
   let mut S := S0
-  let mut t : Trace := {}
+  let mut t : Trace := { cont0 := match continueTraining P S0 with | .ok b => b | .error _ => false }
   let mut e := 0
   for m in ms do
     e := e + 1
@@ -46,7 +89,18 @@ def trace (P : Params) (S0 : State) (ms : List (Rat × Rat)) (rs : List Nat) : T
       t := { t with error := some "KeyError" }
       break
     | .ok (S', o) =>
-      S := if rs.contains e then restart P S' else S'
+      let us := vals.getD (e - 1) []
+      t := { t with written := t.written ++ [{ row := o.row, user := us }], users := t.users ++ [us] }
+      if rs.contains e then
+        S := restart P S'
+        -- the same re-read at the level of the characters of the file
+        match (fileText P decls t.written).bind (readHist P decls) with
+        | some rows =>
+          t := { t with users := rows.map (·.user),
+                        textOk := t.textOk && decide (rows.map (·.row) = S.hist.drop 1) }
+        | none => t := { t with error := some "ValueError", textOk := false }
+      else
+        S := S'
       let ct := match continueTraining P S with
         | .ok b => b
         | .error _ => false
@@ -54,18 +108,32 @@ def trace (P : Params) (S0 : State) (ms : List (Rat × Rat)) (rs : List Nat) : T
                     lrs := t.lrs ++ [S.groups], setLr := t.setLr ++ [o.setLr] }
   return { t with final := some S }
 
-def traceJ (P : Params) (t : Trace) : Json :=
+def traceJ (P : Params) (decls : List EntryDecl) (t : Trace) : Json :=
   let rows := match t.final with
     | some S => S.hist.drop 1
     | none => []
-  objJ [("cont", listJ boolJ t.cont), ("cont_training", listJ boolJ t.contTraining),
+  let contAt : List Json := match t.final with
+    | some S => (List.range S.hist.length).map (fun e =>
+        match continueTrainingAt P S e with
+        | .ok b => boolJ b
+        | .error _ => strJ "KeyError")
+    | none => []
+  let row0J : Json := match t.final with
+    | some S => (match S.hist.head? with | some r => rowJ r | none => Json.null)
+    | none => Json.null
+  let text : Json := match fileText P decls t.written with
+    | some cs => strJ (String.ofList cs)
+    | none => Json.null
+  objJ [("cont0", boolJ t.cont0), ("cont_at", Json.arr contAt.toArray), ("row0", row0J),
+        ("csv_text", text), ("entries", listJ (listJ evalJ) t.users), ("text_ok", boolJ t.textOk),
+        ("cont", listJ boolJ t.cont), ("cont_training", listJ boolJ t.contTraining),
         ("lrs", listJ (listJ ratToJson) t.lrs), ("set_lr", listJ (optJ ratToJson) t.setLr),
         ("error", optJ strJ t.error),
         ("rows", listJ rowJ rows),
         ("csv", listJ (listJ strJ) (csvHeader :: rows.map (rowFields P)))]
 
-def specJ (P : Params) (groups : List Rat) (vals : List Rat) : Json :=
-  let (T, outs) := specRun P (specInit P groups) vals
+def specJ (P : Params) (load0 : Bool) (groups : List Rat) (vals : List Rat) : Json :=
+  let (T, outs) := specRun P (if load0 then specInit P groups else specInitRaw P groups) vals
   -- live[i]: early stopping had not fired before epoch i+1 (the rules speak about epoch i+1)
   let live := (outs.foldl (fun (acc : List Bool × Bool) o => (acc.1 ++ [acc.2], acc.2 && !o.esStop))
                 ([], true)).1
@@ -99,13 +167,27 @@ def c15Run : Handler := fun c => do
       | [a, b] => pure (a, b)
       | _ => throw "metric pair expected") c "metrics"
   let rsets ← getList (jsonToList jsonToNat) c "restart_sets"
-  let S0 := init P groups
-  let base := trace P S0 ms []
-  let rs := rsets.map (fun r => trace P S0 ms r)
+  -- load0 = false: no `load_model_and_optimizer_for_epoch` on the fresh controller
+  let load0 : Bool := match fieldOpt c "load0" with
+    | some (Json.bool b) => b
+    | _ => true
+  let S0 := if load0 then init P groups else initRaw P groups
+  let decls ← match fieldOpt c "entries" with
+    | some j => jsonToList parseDecl j
+    | none => pure []
+  let valsByEntry ← match fieldOpt c "entry_values" with
+    | some j => do
+      let cols ← j.getArr?
+      (cols.toList.zip decls).mapM (fun (col, d) => jsonToList (parseEVal d.typ) col)
+    | none => pure []
+  -- per epoch: the values of all entries
+  let vals : List (List EVal) := (List.range ms.length).map (fun e => valsByEntry.filterMap (fun col => col[e]?))
+  let base := trace P decls vals S0 ms []
+  let rs := rsets.map (fun r => trace P decls vals S0 ms r)
   let vals := ms.map (·.2)
-  let sp := specJ P groups vals
-  let spx := specJ Pex groups vals
-  pure (objJ [("base", traceJ P base), ("restarts", listJ (traceJ P) rs),
+  let sp := specJ P load0 groups vals
+  let spx := specJ Pex load0 groups vals
+  pure (objJ [("base", traceJ P decls base), ("restarts", listJ (traceJ P decls) rs),
               ("spec", sp), ("spec_exact", spx),
               ("flags", objJ [("rounding_sensitive", boolJ (sp.compress != spx.compress)),
                               ("metrics_on_grid", boolJ (onGridJ P ms))])])
@@ -116,6 +198,7 @@ def c15Fmt : Handler := fun c => do
   let sig ← getNat c "sig"
   pure (objJ [("text", strJ (String.ofList (sciText sig (fmtSci sig x)))),
               ("f64", ratToJson (roundF64 x)),
-              ("parsed", ratToJson (roundF64 (sciValue sig (fmtSci sig x))))])
+              ("parsed", ratToJson (roundF64 (sciValue sig (fmtSci sig x)))),
+              ("repr", optJ (fun cs => strJ (String.ofList cs)) (reprText roundF64 x))])
 
 def main : IO Unit := Proto.run [("c15.run", c15Run), ("c15.fmt", c15Fmt)]
